@@ -1057,13 +1057,7 @@ def _table_keys_are_vars(repo, fn, it):
 
 def _resolve_literal_ctor(repo, mod, fn, call):
     """Does this call construct safe_str.literal / shell_literal?"""
-    local = {}
-    if fn is not None:
-        for n in walk_no_nested(fn.node):
-            if isinstance(n, ast.Assign) and len(n.targets) == 1 and \
-                    isinstance(n.targets[0], ast.Name) and isinstance(
-                        n.value, (ast.Name, ast.Attribute)):
-                local[n.targets[0].id] = n.value
+    local = repo.local_scope(fn)
     if not isinstance(call.func, (ast.Name, ast.Attribute)):
         return None
     r = repo.resolve_expr(mod, call.func, local)
